@@ -4,6 +4,7 @@ package main
 // listed verbatim in evidence under trusted_base.
 
 import (
+	"regexp/syntax"
 	"fmt"
 	"go/types"
 	"strings"
@@ -183,6 +184,15 @@ func (fr *Frame) intrinsic(ins ssa.Instruction, callee *ssa.Function, c *ssa.Cal
 		q.assume(reach, fmt.Sprintf("(and (<= 0 %s) (<= %s 4) (<= %s %s) (= (= %s 0) (= %s 0)) (<= 0 %s) (<= %s 1114111))", sz, sz, sz, ln, sz, ln, r, r))
 		q.assume(reach, fmt.Sprintf("(=> (> %s 0) (ite (< %s 128) (and (= %s %s) (= %s 1)) (>= %s 128)))", ln, first, r, first, sz, r))
 		q.assume(reach, fmt.Sprintf("(=> (= %s 0) (= %s 65533))", ln, r))
+		if !strings.Contains(full, "InString") && !strings.Contains(full, "Last") && !q.optsNoContents() {
+			// the bytes of a multi-byte character after its first are continuation bytes (0x80..0xBF)
+			lf := layoutOf(types.Typ[types.Uint8]).leaves[0]
+			arr := q.get(st, lf.Arr)
+			for k := 1; k <= 3; k++ {
+				q.assume(reach, fmt.Sprintf("(=> (> %s %d) (>= (select %s (+ %s %d)) 128))", sz, k, arr, args[0].C[0], k))
+			}
+			trustedUsed["unicode/utf8.DecodeRune(p): when size > k (k = 1..3), p[k] is a continuation byte (>= 0x80)"] = true
+		}
 		return Val{C: []string{r, sz}}, true
 	case "unicode/utf8.RuneLen":
 		r := fr.uf("utf8_RuneLen", []string{args[0].C[0]}, []string{"Int"}, "Int")
@@ -233,6 +243,22 @@ func (fr *Frame) intrinsic(ins ssa.Instruction, callee *ssa.Function, c *ssa.Cal
 		trustedUsed["unicode.Is*/To* are pure functions of the rune (uninterpreted)"] = true
 		return Val{C: []string{r}}, true
 	}
+	if full == "sort.Search" && len(c.Args) == 2 {
+		if mc, ok := c.Args[1].(*ssa.MakeClosure); ok {
+			// r = sort.Search(n, f): 0 <= r <= n, f(r-1) is false when r > 0, f(r) is true when r < n
+			trustedUsed["sort.Search(n, f) returns r in [0, n] with !f(r-1) (r > 0) and f(r) (r < n); f is evaluated on the current state"] = true
+			r := q.fresh(fr.prefix+"_search", "Int")
+			n := args[0].C[0]
+			q.assume(reach, fmt.Sprintf("(and (<= 0 %s) (<= %s (ite (>= %s 0) %s 0)))", r, r, n, n))
+			if v, ok := fr.evalClosureAt(ins, mc, []Val{{C: []string{"(- " + r + " 1)"}}}, "(> "+r+" 0)"); ok && len(v.C) == 1 {
+				q.assume(sAnd(reach, "(> "+r+" 0)"), sNot(v.C[0]))
+			}
+			if v, ok := fr.evalClosureAt(ins, mc, []Val{{C: []string{r}}}, "(< "+r+" "+n+")"); ok && len(v.C) == 1 {
+				q.assume(sAnd(reach, "(< "+r+" "+n+")"), v.C[0])
+			}
+			return Val{C: []string{r}}, true
+		}
+	}
 	if isPureStd(callee) {
 		trustedUsed["functions of strings, strconv, unicode, utf8, errors, math, bytes, path, sort(search), fmt.Sprint*/Errorf, time, regexp matchers: no effect on the modelled heap, result unconstrained (or an uninterpreted function of scalar arguments)"] = true
 		l := layoutOf(rt)
@@ -250,6 +276,7 @@ func (fr *Frame) intrinsic(ins ssa.Instruction, callee *ssa.Function, c *ssa.Cal
 			fr.pureFacts(full, args, v)
 			return v, true
 		}
+		fr.lastCallArgs = c.Args
 		v := fr.freshVal(fr.prefix+"_p_"+sanitize(callee.Name()), rt, reach, st)
 		old := q.get(st, "$top")
 		n := q.fresh("top", "Int")
@@ -267,13 +294,64 @@ func (fr *Frame) pureFacts(full string, args []Val, v Val) {
 	q := fr.q
 	switch full {
 	case "strings.ToUpper", "strings.ToLower":
-		// ASCII-only inputs keep their length; in general unconstrained. No fact.
+		// ASCII-only inputs keep their length; a rune may grow (2 -> 3 bytes) and an invalid byte becomes U+FFFD
+		q.assume("true", fmt.Sprintf("(<= (slen %s) (* 3 (slen %s)))", v.C[0], args[0].C[0]))
+		trustedUsed["strings.ToUpper/ToLower: len(result) <= 3*len(s)"] = true
+	case "fmt.Sprintf", "fmt.Errorf":
+		if b, ok := fr.sprintfBound(args); ok && full == "fmt.Sprintf" {
+			q.assume("true", fmt.Sprintf("(<= (slen %s) %s)", v.C[0], b))
+			trustedUsed["fmt.Sprintf with a constant format: len(result) <= len(format) + lengths of the string operands (x10 under %q/%x/%U) + 40 per operand (operands that are strings, integers, runes, booleans)"] = true
+		}
 	case "strings.TrimSpace", "strings.TrimRight", "strings.TrimLeft", "strings.Trim", "strings.TrimSuffix", "strings.TrimPrefix":
 		q.assume("true", fmt.Sprintf("(<= (slen %s) (slen %s))", v.C[0], args[0].C[0]))
 	case "strings.Split":
 		q.assume(fr.cur.reach, fmt.Sprintf("(>= %s 1)", v.C[1]))
+		// the parts and the separators between them make up the input: for a one-byte separator
+		// sum(len(part)+1) == len(s)+1 (also for the empty input, which yields one empty part)
+		if sep, ok := fr.lastCallArgs[1].(*ssa.Const); ok && len(constString(sep)) == 1 {
+			lf := layoutOf(types.Typ[types.String]).leaves[0]
+			famLeafSort[lf.Arr] = lf.Sort
+			q.assume(fr.cur.reach, fmt.Sprintf("(= (sumlen1 %s %s %s) (+ (slen %s) 1))", q.get(fr.cur.st, lf.Arr), v.C[0], v.C[1], args[0].C[0]))
+			trustedUsed["strings.Split(s, sep) with a one-byte separator: at least one part; sum over parts of (len+1) == len(s)+1"] = true
+		}
+	case "(*regexp.Regexp).FindStringIndex":
+		// nil, or [start, end] of the leftmost match: 0 <= start, start + (shortest possible match) <= end <= len(s)
+		if len(v.C) == 3 && len(args) == 2 {
+			lf := layoutOf(types.Typ[types.Int]).leaves[0]
+			famLeafSort[lf.Arr] = lf.Sort
+			arr := q.get(fr.cur.st, lf.Arr)
+			minLen := 0
+			if len(fr.lastCallArgs) > 0 {
+				minLen = regexpMinLen(fr.lastCallArgs[0])
+			}
+			e0 := fmt.Sprintf("(select %s %s)", arr, v.C[0])
+			e1 := fmt.Sprintf("(select %s (+ %s 1))", arr, v.C[0])
+			q.assume(fr.cur.reach, fmt.Sprintf("(or (and (= %s 0) (= %s 0)) (and (not (= %s 0)) (= %s 2) (<= 0 %s) (<= (+ %s %d) %s) (<= %s (slen %s))))",
+				v.C[0], v.C[1], v.C[0], v.C[1], e0, e0, minLen, e1, e1, args[1].C[0]))
+			trustedUsed["(*regexp.Regexp).FindStringIndex(s): nil, or [start, end] with 0 <= start, start + minlen(pattern) <= end <= len(s) (minlen computed from the compiled pattern's syntax tree)"] = true
+		}
+	case "bytes.Index":
+		// r == -1, or sep occurs at r: it fits, and (for a non-empty sep) s[r] is its first byte
+		if len(args) == 2 && len(args[0].C) >= 2 && len(args[1].C) >= 2 {
+			q.assume("true", fmt.Sprintf("(and (<= (- 1) %s) (=> (>= %s 0) (<= (+ %s %s) %s)))", v.C[0], v.C[0], v.C[0], args[1].C[1], args[0].C[1]))
+			if !q.optsNoContents() {
+				lf := layoutOf(types.Typ[types.Uint8]).leaves[0]
+				famLeafSort[lf.Arr] = lf.Sort
+				arr := q.get(fr.cur.st, lf.Arr)
+				q.assume("true", fmt.Sprintf("(=> (and (>= %s 0) (> %s 0)) (= (select %s (+ %s %s)) (select %s %s)))", v.C[0], args[1].C[1], arr, args[0].C[0], v.C[0], arr, args[1].C[0]))
+			}
+			trustedUsed["bytes.Index(s, sep) = r: r == -1, or r >= 0 with r+len(sep) <= len(s) and s[r] == sep[0]"] = true
+		}
+	case "sort.Search":
+		// the smallest index in [0, n) at which the predicate holds, or n
+		q.assume("true", fmt.Sprintf("(and (<= 0 %s) (<= %s (ite (>= %s 0) %s 0)))", v.C[0], v.C[0], args[0].C[0], args[0].C[0]))
+		trustedUsed["sort.Search(n, f) returns a value in [0, n]"] = true
 	case "strings.Index", "strings.IndexByte", "strings.IndexRune", "strings.LastIndex", "strings.IndexAny":
 		q.assume("true", fmt.Sprintf("(and (<= (- 1) %s) (< %s (slen %s)) (=> (= (slen %s) 0) (<= %s 0)))", v.C[0], v.C[0], args[0].C[0], args[0].C[0], v.C[0]))
+		if (full == "strings.Index" || full == "strings.LastIndex") && len(args) == 2 {
+			// a found occurrence fits into the text
+			q.assume("true", fmt.Sprintf("(=> (>= %s 0) (<= (+ %s (slen %s)) (slen %s)))", v.C[0], v.C[0], args[1].C[0], args[0].C[0]))
+		}
 	}
 }
 
@@ -432,6 +510,11 @@ func (fr *Frame) storeVia(addr ssa.Value, elem types.Type, v Val) {
 	for i := range fams {
 		famLeafSort[fams[i]] = sorts[i]
 		a := fr.q.get(st, fams[i])
+		if fams[i] == fr.q.peakFam && fr.q.peakFam != "" {
+			// the cursor moves: remember the furthest point it reached
+			hw := fr.q.get(st, "$hw")
+			st.v["$hw"] = fmt.Sprintf("(ite (and (= %s %s) (> %s %s)) %s %s)", addrs[i], fr.q.peakAddr, v.C[i], hw, v.C[i], hw)
+		}
 		t := fmt.Sprintf("(store %s %s %s)", a, addrs[i], v.C[i])
 		if len(t) > 400 {
 			n := fr.q.fresh(smtSym(fams[i])+"@s", famSort(fr.q, fams[i]))
@@ -560,4 +643,146 @@ func findStdType(fn *ssa.Function, pkg string) types.Type {
 	}
 	stdTypeCache[pkg] = res
 	return res
+}
+
+
+// sprintfBound: an upper bound of the length of fmt.Sprintf(format, operands...) when the format is a constant and
+// every operand is a string, an integer, a rune or a boolean packed in place (the usual error-message case).
+func (fr *Frame) sprintfBound(args []Val) (string, bool) {
+	ca := fr.lastCallArgs
+	if len(ca) != 2 {
+		return "", false
+	}
+	fc, ok := ca[0].(*ssa.Const)
+	if !ok {
+		return "", false
+	}
+	format := constString(fc)
+	if format == "%T" {
+		return "64", true // a type name
+	}
+	if strings.Contains(format, "*") || strings.Contains(format, "%+v") || strings.Contains(format, "%#v") {
+		return "", false
+	}
+	terms := []string{sInt(int64(len(format)))}
+	// operands: a slice of a local [n]interface{} array filled by stores of MakeInterface values
+	sl, ok := ca[1].(*ssa.Slice)
+	if !ok {
+		if c, isC := ca[1].(*ssa.Const); isC && c.Value == nil {
+			return terms[0], true // no operands
+		}
+		return "", false
+	}
+	arr, ok := sl.X.(*ssa.Alloc)
+	if !ok || arr.Referrers() == nil {
+		return "", false
+	}
+	for _, r := range *arr.Referrers() {
+		ia, ok := r.(*ssa.IndexAddr)
+		if !ok {
+			continue
+		}
+		for _, rr := range *ia.Referrers() {
+			st, ok := rr.(*ssa.Store)
+			if !ok {
+				continue
+			}
+			mi, ok := st.Val.(*ssa.MakeInterface)
+			if !ok {
+				return "", false
+			}
+			switch u := underlying(mi.X.Type()).(type) {
+			case *types.Basic:
+				switch {
+				case u.Info()&types.IsString != 0:
+					xv := fr.val(mi.X)
+					f := "1"
+					if strings.Contains(format, "%q") || strings.Contains(format, "%x") || strings.Contains(format, "%X") || strings.Contains(format, "%U") {
+						f = "10" // quoting / hex rendering may expand every byte
+					}
+					terms = append(terms, "(* "+f+" (slen "+xv.C[0]+"))", "40")
+				case u.Info()&(types.IsInteger|types.IsBoolean) != 0:
+					terms = append(terms, "40")
+				default:
+					return "", false
+				}
+			default:
+				return "", false
+			}
+		}
+	}
+	return "(+ " + strings.Join(terms, " ") + ")", true
+}
+
+
+// regexpMinLen: the length in bytes of the shortest string the pattern of a package-level *regexp.Regexp can match
+// (0 when the pattern cannot be determined)
+func regexpMinLen(recv ssa.Value) int {
+	u, ok := recv.(*ssa.UnOp)
+	if !ok {
+		return 0
+	}
+	g, ok := u.X.(*ssa.Global)
+	if !ok || g.Pkg == nil {
+		return 0
+	}
+	init := g.Pkg.Func("init")
+	if init == nil {
+		return 0
+	}
+	for _, b := range init.Blocks {
+		for _, ins := range b.Instrs {
+			st, ok := ins.(*ssa.Store)
+			if !ok || st.Addr != ssa.Value(g) {
+				continue
+			}
+			call, ok := st.Val.(*ssa.Call)
+			if !ok || call.Call.StaticCallee() == nil || call.Call.StaticCallee().String() != "regexp.MustCompile" {
+				return 0
+			}
+			c, ok := call.Call.Args[0].(*ssa.Const)
+			if !ok {
+				return 0
+			}
+			re, err := syntax.Parse(constString(c), syntax.Perl)
+			if err != nil {
+				return 0
+			}
+			return reMin(re.Simplify())
+		}
+	}
+	return 0
+}
+
+func reMin(re *syntax.Regexp) int {
+	switch re.Op {
+	case syntax.OpLiteral:
+		return len(re.Rune) // each rune is at least one byte
+	case syntax.OpCharClass, syntax.OpAnyCharNotNL, syntax.OpAnyChar:
+		return 1
+	case syntax.OpCapture:
+		return reMin(re.Sub[0])
+	case syntax.OpPlus:
+		return reMin(re.Sub[0])
+	case syntax.OpRepeat:
+		return re.Min * reMin(re.Sub[0])
+	case syntax.OpConcat:
+		n := 0
+		for _, s := range re.Sub {
+			n += reMin(s)
+		}
+		return n
+	case syntax.OpAlternate:
+		m := -1
+		for _, s := range re.Sub {
+			if k := reMin(s); m < 0 || k < m {
+				m = k
+			}
+		}
+		if m < 0 {
+			return 0
+		}
+		return m
+	}
+	return 0 // star, quest, empty, anchors, anything unknown
 }
